@@ -827,10 +827,145 @@ def run(tier, seed, replay=None):
         lap("cq-eval")
         cq_swap_stream(rep, drv, random.Random(rng.getrandbits(64)), quick)
         lap("cq-swap")
+        bare_swap_stream(rep, random.Random(rng.getrandbits(64)), quick)
+        lap("bare-swap")
     finally:
         drv.close()
     return rep.finish()
 
+
+
+# --------------------------------------------------------------------------- bare Swap boxes
+
+IMAGES = [2, 3, 1, (2,), (3,), (5,), (), (2, 3), (3, 2), (2, 2), (5, 2), (2, 3, 2), (3, 3)]
+
+
+def bare_swap_stream(rep, rng, quick):
+    """The tensor a tensor.Functor / `.eval()` assigns to a Swap BOX OBJECT itself -- `F(Swap(x, y))`,
+    `tensor.Swap(l, r).eval()`, `F(diagram.boxes[i])`, `diagram.boxes[i].eval()` for the boxes of
+    Diagram.swap / Diagram.permutation in the rigid, tensor and circuit classes -- has domain
+    F(left) @ F(right), codomain F(right) @ F(left) and is the exact 0/1 tensor that moves the wires of
+    F(left), in order, to the right of those of F(right); the same as the one-box diagrams `Id() @ box`
+    and `Diagram(dom, cod, [box], [0])`.  Images of the two wires DIFFER in dimension and in width (ints,
+    Dim(1), multi-wire Dims).  Oracle only (the arrays: numpy moveaxis is modelled under C08/C09)."""
+    from discopy import rigid, monoidal, tensor
+    from discopy.tensor import Dim, Tensor
+
+    def dims(v):
+        return [x for x in ([v] if isinstance(v, int) else list(v)) if x != 1]
+
+    def check(sig, case, thunk, left, right):
+        rep.count("bare_swap:" + sig)
+        try:
+            t = thunk()
+        except Exception as e:
+            rep.fail("bare_swap_raised:" + sig, case, repr(e)[:300])
+            return
+        if not isinstance(t, Tensor):
+            rep.fail("bare_swap_not_a_tensor:" + sig, case, "the result is %r" % (t,))
+            return
+        want_dom, want_cod = left + right, right + left
+        if dim_list(t.dom) != want_dom or dim_list(t.cod) != want_cod:
+            rep.fail("bare_swap_type:" + sig, case, "the tensor of the swap box has type %r -> %r; "
+                     "F(left) @ F(right) -> F(right) @ F(left) is %r -> %r" % (
+                         dim_list(t.dom), dim_list(t.cod), want_dom, want_cod))
+            return
+        why = array_failure(t.array, want_dom, block_exchange(len(left), len(right)))
+        if why is not None:
+            rep.fail("bare_swap_" + why[0] + ":" + sig, case, why[1])
+
+    def all_forms(sig, case, box, F, Id0, D, left, right, evals):
+        nontrivial = left != right and len(left) + len(right) >= 2
+        rep.case("bare_swap|%s|%r" % (sig, sorted(case.items())), nontrivial)
+        rep.count("bare_swap:images:%s" % ("differ" if left != right else "equal"))
+        rep.count("bare_swap:image_widths:%d_%d" % (min(len(left), 3), min(len(right), 3)))
+        check(sig + ":functor(box)", case, lambda: F(box), left, right)
+        if evals:
+            check(sig + ":box.eval()", case, lambda: box.eval(), left, right)
+        check(sig + ":functor(Id() @ box)", case, lambda: F(Id0 @ box), left, right)
+        check(sig + ":functor(Diagram(dom, cod, [box], [0]))", case,
+              lambda: F(D(box.dom, box.cod, [box], [0])), left, right)
+
+    # ---- rigid (and monoidal) Swap boxes under tensor.Functor(ob, ar={}) with different images
+    pairs = [(a, b) for a in IMAGES for b in IMAGES]
+    rng.shuffle(pairs)
+    for fx, fy in pairs[:40 if quick else len(pairs)]:
+        zx, zy = rng.choice([0, 0, 1, -1, 2]), rng.choice([0, 0, 1, -1])
+        x, y = rigid.Ty(rigid.Ob("x", zx)), rigid.Ty(rigid.Ob("y", zy))
+        img = lambda v: v if isinstance(v, int) else Dim(*v)  # noqa: E731
+        obd = {rigid.Ty("x"): img(fx), rigid.Ty("y"): img(fy)}
+        style = rng.choice(["dict", "callable"])
+        F = tensor.Functor(obd if style == "dict" else (lambda t: obd[t]), {})
+        case = dict(cls="rigid", ob={"x": fx, "y": fy}, z=(zx, zy), ob_style=style)
+        left, right = dims(fx), dims(fy)
+        all_forms("rigid", dict(case, box="rigid.Swap(x, y)"), rigid.Swap(x, y), F,
+                  rigid.Id(rigid.Ty()), rigid.Diagram, left, right, False)
+        if rng.random() < 0.5:
+            all_forms("rigid", dict(case, box="rigid.Swap(y, x)"), rigid.Swap(y, x), F,
+                      rigid.Id(rigid.Ty()), rigid.Diagram, right, left, False)
+        # the boxes of a composite swap, each alone
+        a, b = rng.choice([(x @ y, y), (x, y @ x), (x @ y, x @ x)])
+        try:
+            d = rigid.Diagram.swap(a, b)
+            for i, box in enumerate(d.boxes[:4]):
+                bl = [w for o in box.dom[:1] for w in dims({"x": fx, "y": fy}[o.name])]
+                br = [w for o in box.dom[1:] for w in dims({"x": fx, "y": fy}[o.name])]
+                check("rigid:functor(diagram.boxes[i])", dict(case, diagram="swap(%s, %s)" % (a, b),
+                                                               index=i), lambda box=box: F(box), bl, br)
+        except Exception as e:
+            rep.fail("bare_swap_raised:rigid:diagram", dict(case, diagram="swap(%s, %s)" % (a, b)),
+                     repr(e)[:300])
+        if zx == 0 and zy == 0 and rng.random() < 0.4:
+            mx, my = monoidal.Ty("x"), monoidal.Ty("y")
+            check("monoidal:functor(box)", dict(case, box="monoidal.Swap(x, y)"),
+                  lambda: F(monoidal.Swap(mx, my)), left, right)
+    # ---- tensor.Swap boxes: eval and the identity-on-arrays functor
+    Fid = tensor.Functor(ob=lambda x: x, ar=lambda f: f.array)
+    ds = [2, 3, 4, 5, 7]
+    tp = [(a, b) for a in ds for b in ds]
+    rng.shuffle(tp)
+    for a, b in tp[:12 if quick else len(tp)]:
+        case = dict(cls="tensor", left=a, right=b)
+        all_forms("tensor", dict(case, box="tensor.Swap(Dim(a), Dim(b))"), tensor.Swap(Dim(a), Dim(b)),
+                  Fid, tensor.Id(Dim(1)), tensor.Diagram, [a], [b], True)
+    for _ in range(8 if quick else 60):
+        n = rng.randint(2, 4)
+        dom = [rng.choice([2, 3, 5]) for _ in range(n)]
+        if rng.random() < 0.5:
+            k = rng.randint(1, n - 1)
+            what = "swap(Dim%r, Dim%r)" % (tuple(dom[:k]), tuple(dom[k:]))
+            d = tensor.Diagram.swap(Dim(*dom[:k]), Dim(*dom[k:]))
+        else:
+            perm = list(range(n))
+            rng.shuffle(perm)
+            what = "permutation(%r, Dim%r)" % (perm, tuple(dom))
+            d = tensor.Diagram.permutation(perm, Dim(*dom))
+        for i, box in enumerate(d.boxes[:5]):
+            case = dict(cls="tensor", diagram=what, index=i)
+            bl, br = dim_list(box.dom[:1]), dim_list(box.dom[1:])
+            rep.case("bare_swap|tensor|%s|%d" % (what, i), bl != br)
+            check("tensor:diagram.boxes[i].eval()", case,
+                  (lambda box=box: box.eval()) if hasattr(box, "eval") else (lambda box=box: Fid(box)),
+                  bl, br)
+            check("tensor:functor(diagram.boxes[i])", case, lambda box=box: Fid(box), bl, br)
+    # ---- circuit Swap boxes of wires of different kinds / dimensions, alone
+    cls = CircuitC()
+    wires = list(SMALL_WIRES)
+    cp = [(a, b) for a in wires for b in wires]
+    rng.shuffle(cp)
+    for a, b in cp[:5 if quick else len(cp)]:
+        kinds = [wire_kind(a), wire_kind(b)]
+        case = dict(cls="circuit", left=a, right=b)
+        try:
+            d = cls.swap([(a, 0)], [(b, 0)])
+            box = d.boxes[0]
+            rep.count("bare_swap:circuit:diagram.boxes[0].eval()")
+            rep.case("bare_swap|circuit|%s|%s" % (a, b), a != b)
+            why = evaluated_failure(box.eval(), kinds, [1, 0])
+            if why is not None:
+                rep.fail("bare_swap_" + why[0] + ":circuit", case, why[1])
+        except Exception as e:
+            rep.fail("bare_swap_raised:circuit", case, repr(e)[:300])
 
 # --------------------------------------------------------------------------- evaluation targets
 
